@@ -56,7 +56,11 @@ type Spec struct {
 	// scheduling points of the cooperative goroutine scheduler; MaxPreempt
 	// bounds the preemptions per path (default 2).
 	Focus      []string `json:"focus,omitempty"`
-	FocusFuncs []string `json:"focus_funcs,omitempty"` // e.g. "(*github.com/sarchlab/akita/v4/sim.SerialEngine).Run"
+	FocusFuncs []string `json:"focus_funcs,omitempty"`
+	// MapRange: package patterns scanned for range-over-map statements (C05);
+	// MapRangeOutside: "Recv.Func=reason" for sites deliberately not checked
+	MapRange        []string `json:"map_range,omitempty"`
+	MapRangeOutside []string `json:"map_range_outside,omitempty"` // e.g. "(*github.com/sarchlab/akita/v4/sim.SerialEngine).Run"
 	MaxPreempt *int     `json:"max_preempt,omitempty"`
 	// PrefixDepth/PrefixBudget: paths are counted per prefix of PrefixDepth choice
 	// decisions (e.g. per opcode row); a prefix that exceeds PrefixBudget paths is
@@ -234,6 +238,7 @@ func workerMain(args []string) {
 		solver.Log = f
 	}
 	reported := map[string]bool{}
+	lastFn := ""
 	in := bufio.NewReaderSize(os.Stdin, 1<<24)
 	out := bufio.NewWriter(os.Stdout)
 	fmt.Fprintln(out, "READY")
@@ -254,6 +259,17 @@ func workerMain(args []string) {
 		for _, s := range req.Start {
 			start = append(start, decDecisions(s))
 		}
+		if lastFn != "" && lastFn != req.Pkg+"."+req.Fn && interp.TermCount() > 2000 {
+			// a new entry: start from a fresh term table and solver (the
+			// definitions accumulated for the previous entry slow every query)
+			solver.Close()
+			interp.ResetTerms()
+			solver, err = smt.NewSolver(interp.SmtCtx(), spec.Solver, spec.Timeout)
+			if err != nil {
+				fatal(err)
+			}
+		}
+		lastFn = req.Pkg + "." + req.Fn
 		var rsp workRsp
 		func() {
 			defer func() {
@@ -686,6 +702,8 @@ func main() {
 	switch os.Args[1] {
 	case "check":
 		checkMain(os.Args[2:])
+	case "maprange":
+		mapRangeMain(os.Args[2:])
 	case "worker":
 		workerMain(os.Args[2:])
 	case "replay":
